@@ -24,7 +24,9 @@ D1 == <<17, 18, 19, 20, 21, 22, 23, 24>>
 GNmt == {<<"nmt", cs, t>> : cs \in {1, 2, 128}, t \in {0, 5}} \cup {<<"nmt", 1, 6>>, <<"nmt", 7, 5>>}
 GStart == {<<"nmt", 1, 0>>, <<"nmt", 1, 5>>}
 GReset == {<<"nmt", 130, 5>>, <<"nmt", 129, 0>>, <<"nmt", 130, 6>>}
-GMode == {<<"setmode", m>> : m \in {2, 3, 4}} \cup {<<"setmode", 1>>, <<"bootup">>}
+GMode == {<<"setmode", m>> : m \in {2, 3, 4}} \cup {<<"setmode", 1>>, <<"bootup">>, <<"apireset", 2>>}
+\* the application holding the node in INITIALISATION: services used there, CONmtReset from there
+GInit == {<<"setmode", 1>>, <<"bootup">>, <<"apireset", 2>>, <<"apireset", 1>>, <<"E", <<"set", 1, <<>>>>>>, <<"E", <<"set", 2, <<>>>>>>, <<"E", <<"cnt">>>>, <<"tick">>, <<"pool">>}
 GTick == {<<"tick">>}
 GHb == {<<"N", <<"hb", nd, st>>>> : nd \in {10, 11, 12}, st \in {5, 127}} \cup {<<"N", <<"hbev", nd>>>> : nd \in {10, 11}} \cup {<<"N", <<"hblast", 10>>>>}
        \cup {<<"N", HcW(k, nd, t)>> : k \in {1, 2}, nd \in {10, 12}, t \in {0, 2}}
@@ -36,12 +38,28 @@ GSync == {<<"P", <<"sync", 128>>>>, <<"P", <<"sync", 129>>>>}
 GCfg == {<<"P", <<"cfg", "evt", TRUE, 1, 0>>>>, <<"P", <<"cfg", "evt", TRUE, 1, 3>>>>, <<"P", <<"cfg", "cid", TRUE, 1, <<133, 1, 0, 192>>>>>>, <<"P", <<"cfg", "cid", TRUE, 1, <<133, 1, 0, 64>>>>>>,
          <<"P", <<"cfg", "cid", FALSE, 2, <<5, 3, 0, 128>>>>>>, <<"P", <<"cfg", "cid", FALSE, 2, <<5, 3, 0, 0>>>>>>, <<"P", <<"cfg", "inh", TRUE, 1, 0>>>>,
          <<"P", <<"cfg", "sid", TRUE, 1, <<128, 0, 0, 64>>>>>>, <<"P", <<"cfg", "sid", TRUE, 1, <<128, 0, 0, 0>>>>>>, <<"P", <<"cfg", "scyc", TRUE, 1, 3000>>>>, <<"P", <<"cfg", "scyc", TRUE, 1, 500>>>>,
+         \* another SYNC identifier, with and without the generate bit (refused while producing, or when the period cannot be resolved)
+         <<"P", <<"cfg", "sid", TRUE, 1, <<129, 0, 0, 64>>>>>>, <<"P", <<"cfg", "sid", TRUE, 1, <<129, 0, 0, 0>>>>>>, <<"P", <<"cfg", "scyc", TRUE, 1, 0>>>>,
          <<"P", <<"rdcfg", "scyc", TRUE, 1>>>>, <<"P", <<"rdcfg", "cid", TRUE, 1>>>>}
 GEmcy == {<<"E", <<"set", k, <<>>>>>> : k \in 0..3} \cup {<<"E", <<"clr", k>>>> : k \in 0..3} \cup {<<"E", <<"set", 1, EG!U1>>>>, <<"E", <<"reset", FALSE>>>>, <<"E", <<"reset", TRUE>>>>, <<"E", <<"cnt">>>>,
           <<"E", <<"rdreg">>>>, <<"E", <<"rdhist", 0>>>>, <<"E", <<"rdhist", 1>>>>, <<"E", <<"wrhist", 0>>>>, <<"E", <<"wrid", FALSE>>>>, <<"E", <<"wrid", TRUE>>>>}
 GCsdo == {<<"C", <<"up", z, t>>>> : z \in {4, 8, 15}, t \in {2, 3}} \cup {<<"C", <<"down", z, 3, 10>>>> : z \in {1, 8, 14}} \cup {<<"C", <<"down", 5, 0, 10>>>>}
 GSrv == {<<"C", <<"srv", k>>>> : k \in {"ok", "abort"}} \cup {<<"C", <<"state">>>>, <<"C", <<"ubuf">>>>}
-FGroups == <<GNmt, GStart, GStart, GReset, GMode, GTick, GTick, GTick, GTick, GHb, GHb, GApp, GPdo, GPdo, GSync, GCfg, GEmcy, GCsdo, GSrv, GSrv>>
+FGroups == <<GNmt, GStart, GStart, GReset, GMode, GInit, GTick, GTick, GTick, GTick, GHb, GHb, GApp, GPdo, GPdo, GSync, GCfg, GEmcy, GCsdo, GSrv, GSrv>>
+\* ---- letters with random parameters (the whole value range instead of a few representatives) ----
+Rnd(n) == RandomElement(0..n)
+RBytes(n) == [i \in 1..n |-> Rnd(255)]
+RTime == LET k == Rnd(9) IN IF k < 5 THEN Rnd(6) ELSE IF k < 8 THEN 32760 + Rnd(16) ELSE Rnd(65535)       \* small, around the sign bit, anything
+FRand(k) ==
+  CASE k = 1 -> <<"P", <<"rpdo", RandomElement({517, 773}), RBytes(8)>>>>
+    [] k = 2 -> LET o == RandomElement({"a", "b", "w", "l", "W", "L"}) IN <<"P", <<RandomElement({"wr", "api"}), o, RBytes(FObjs[o].size)>>>>
+    [] k = 3 -> LET t == RTime IN <<"N", <<"sdowr", 4119, 0, <<t % 256, t \div 256>>>>>>
+    [] k = 4 -> <<"N", HcW(1 + Rnd(1), RandomElement({10, 11, 12, 1 + Rnd(126)}), RTime)>>
+    [] k = 5 -> <<"P", <<"cfg", RandomElement({"evt", "inh"}), TRUE, 1, RTime>>>>        \* (the event-driven TPDO: times of synchronous TPDOs are not ruled on)
+    [] k = 6 -> <<"N", <<"hb", RandomElement({10, 11, 12, 1 + Rnd(126)}), RandomElement({0, 4, 5, 127, Rnd(255)})>>>>
+    [] k = 7 -> <<"E", <<"set", Rnd(3), RBytes(7)>>>>
+    [] k = 8 -> <<"N", <<"other", RandomElement({1 + Rnd(126), 257 + Rnd(126), 641 + Rnd(100), 1281 + Rnd(126), 1793 + Rnd(126)} \ {128, 133, 389, 517, 645, 773, 1541, 1417, 1802, 1803})>>>>
+FNRand == 8
 \* the probe looks at every service, resets the node, and looks again
 Look == << <<"pool">>, <<"N", <<"getmode">>>>, <<"N", <<"sdord", 4119, 0>>>>, <<"N", <<"sdord", 4118, 1>>>>, <<"N", <<"sdord", 4118, 2>>>>, <<"P", <<"rdcfg", "sid", TRUE, 1>>>>, <<"P", <<"rdcfg", "cid", TRUE, 1>>>>,
            <<"E", <<"rdreg">>>>, <<"E", <<"cnt">>>>, <<"E", <<"rdhist", 0>>>>, <<"C", <<"state">>>>,
